@@ -79,7 +79,9 @@ func driveGen(c *hx.Ctx) error {
 	total := c.Pick(1200, 20000)
 	for i := 0; i < total; i++ {
 		stream := []string{"mixed", "mixed", "mounts"}[i%3]
-		cs := &GenCase{Stream: stream, Spec: g.container("", i%2 == 0), Adjust: g.genAdjust(stream), Deterministic: true, Runs: runs}
+		spec := g.container("", i%2 == 0)
+		g.echoC, g.echoRes = spec, spec.Res
+		cs := &GenCase{Stream: stream, Spec: spec, Adjust: g.genAdjust(stream), Deterministic: true, Runs: runs}
 		if stream == "mounts" && g.r.Intn(2) == 0 {
 			cs.Spec.Mounts = append(cs.Spec.Mounts, g.mount(nastyDsts[g.r.Intn(len(nastyDsts))], 0))
 		}
